@@ -61,7 +61,7 @@ def leaf_geometry(ctx, proof):
 def builders(ctx):
     rng = ctx.rng
     out = []
-    n = 36 if ctx.tier == "quick" else 600
+    n = 60 if ctx.tier == "quick" else 600
     kinds = ["DD"] * 6 + ["HD", "HF:4000", "HF:5004"]     # even sizes: odd hardfiles lose their last block on mount (C14)
 
     def mk(label, **kw):
@@ -105,7 +105,7 @@ def builders(ctx):
             "free", "umount", "umountdev", "dump $W/img1", "spectree", "mountdev 0", "mount 0 0",
             "open 0 - %s r" % A, "read 0 %d" % (size2 + 3 * bs), "close 0", "umount", "umountdev"]
         return L, 0, 1760, {"flavour": flav, "size": size, "size2": size2}
-    for i in range(12 if ctx.tier == "quick" else 300):
+    for i in range(24 if ctx.tier == "quick" else 300):
         out.append(("alignment", align))
 
     # transition sweep: (how the handle arrived at a position: fresh open / seek / read up to it / write up to it) x (where the
@@ -163,8 +163,75 @@ def builders(ctx):
         L += ["stat 0", "seek 0 0", "read 0 %d" % (size + bs), "close 0", "free", "dump $W/img1", "spectree",
               "umount", "umountdev", "mountdev 0", "mount 0 0", "open 0 - %s r" % A, "read 0 %d" % (size + bs), "close 0", "umount", "umountdev"]
         return L, 0, 1760, {"flavour": flav, "blocks": k, "transitions": seq}
-    for i in range(30 if ctx.tier == "quick" else 900):
+    for i in range(60 if ctx.tier == "quick" else 900):
         out.append(("transitions", transitions))
+
+    # truncate sweep: files with 0..3 extension blocks cut (or grown) to sizes on / next to block and 72-block edges, through the
+    # handle that wrote them or a fresh one, then appended to; extension blocks that stay exactly full are the interesting case
+    def truncsweep(ctx):
+        flav = rng.choice(gen.FLAVOURS)
+        bs = 512 if flav & 1 else 488
+        k1 = rng.choice([73, 100, 144, 145, 150, 161, 216, 217, 220])
+        k2 = rng.choice([0, 1, 71, 72, 73, 143, 144, 144, 145, 215, 216, 216, 217, 230])
+        size1 = k1 * bs + rng.choice([-1, 0, 1, 7])
+        size2 = max(0, k2 * bs + rng.choice([-1, 0, 0, 1]))
+        A = hexs(b"A")
+        same = rng.random() < 0.5
+        L = gen.dev_create("DD", flav) + ["mountdev 0", "mount 0 0", "open 0 - %s w" % A, "write 0 7 %d" % size1]
+        if not same:
+            L += ["close 0", "open 0 - %s rw" % A]
+            if rng.random() < 0.5:
+                L += ["seek 0 %d" % rng.choice([0, size1, size1 // 2, 72 * bs, 73 * bs])]
+        L += ["trunc 0 %d" % size2, "stat 0"]
+        size = size2
+        tail = rng.choice(["none", "append", "append-big", "close-append", "read"])
+        if tail == "append":
+            L += ["seek 0 %d" % size, "write 0 9 %d" % rng.choice([1, bs, bs + 1])]
+        elif tail == "append-big":
+            L += ["seek 0 %d" % size, "write 0 9 %d" % (73 * bs + 3)]
+        elif tail == "close-append":
+            L += ["close 0", "open 0 - %s rw" % A, "seek 0 %d" % size, "write 0 9 %d" % rng.choice([1, 2 * bs])]
+        elif tail == "read":
+            L += ["seek 0 %d" % max(0, size - 2 * bs), "read 0 %d" % (3 * bs)]
+        L += ["close 0", "free", "dump $W/img1", "spectree", "umount", "umountdev", "mountdev 0", "mount 0 0",
+              "open 0 - %s r" % A, "read 0 %d" % (400 * bs), "close 0", "rm - %s" % A, "free", "dump $W/img2", "spectree", "umount", "umountdev"]
+        return L, 0, 1760, {"flavour": flav, "blocks_before": k1, "blocks_after": k2, "same_handle": same, "then": tail}
+    for i in range(50 if ctx.tier == "quick" else 900):
+        out.append(("truncate-sweep", truncsweep))
+
+    # release and reuse: a handle that has walked into the extension blocks of file A gives blocks back (truncate) and stays open
+    # while file B grows into the freed blocks; then the first handle is used again / flushed / closed
+    def reuse(ctx):
+        flav = rng.choice(gen.FLAVOURS)
+        bs = 512 if flav & 1 else 488
+        kA = rng.choice([74, 100, 145, 150])
+        A, B = hexs(b"A"), hexs(b"B")
+        L = gen.dev_create("DD", flav) + ["mountdev 0", "mount 0 0"]
+        how = rng.choice(["writer", "reopen-seek", "reopen-read"])
+        L += ["open 0 - %s w" % A, "write 0 7 %d" % (kA * bs + 5)]
+        if how != "writer":
+            L += ["close 0", "open 0 - %s rw" % A]
+            if how == "reopen-seek":
+                L += ["seek 0 %d" % (rng.choice([73, kA - 1]) * bs)]
+            else:
+                L += ["seek 0 %d" % (72 * bs - 10), "read 0 %d" % (2 * bs)]
+        t = rng.choice([0, 0, 1, bs, 10 * bs, 72 * bs, 73 * bs])
+        L += ["trunc 0 %d" % t]
+        L += ["open 1 - %s w" % B, "write 1 8 %d" % (rng.choice([3, 40, 80, 150]) * bs + 9)]
+        if rng.random() < 0.5:
+            L += ["close 1"]
+        after = rng.choice(["close", "flush", "write", "write-big"])
+        if after == "flush":
+            L += ["flush 0"]
+        elif after == "write":
+            L += ["write 0 11 %d" % rng.choice([1, bs, 3 * bs])]
+        elif after == "write-big":
+            L += ["write 0 11 %d" % (74 * bs)]
+        L += ["close 0", "close 1", "free", "dump $W/img1", "spectree", "umount", "umountdev", "mountdev 0", "mount 0 0",
+              "open 0 - %s r" % A, "read 0 %d" % (400 * bs), "close 0", "open 0 - %s r" % B, "read 0 %d" % (400 * bs), "close 0", "umount", "umountdev"]
+        return L, 0, 1760, {"flavour": flav, "blocks": kA, "first_handle": how, "truncate_to": t, "then": after}
+    for i in range(40 if ctx.tier == "quick" else 900):
+        out.append(("release-and-reuse", reuse))
     # the other history-based checks take a prefix of this list: mix the kinds
     order = list(range(len(out)))
     rng.shuffle(order)
@@ -179,7 +246,8 @@ def run(ctx):
     leaf_geometry(ctx, proof)
     rule = ("leaf geometry calls at every alignment around 488/512 and multiples of 72 blocks plus random positions; random interleavings over up to 4 handles and "
             "10 names with remount/dump points, files up to 40 blocks (mixed) or up to 145 blocks (mixed-big), all names in one hash chain (mixed-one-hash-chain), boundary alignment sweeps with "
-            "fragmentation, and transition sweeps on a reopened file (arrive at a block / 72-block / EOF edge by seek, read or write, then write / read / truncate / flush); "
+            "fragmentation, transition sweeps on a reopened file (arrive at a block / 72-block / EOF edge by seek, read or write, then write / read / truncate / flush), truncate sweeps "
+            "(1..3 extension blocks cut to every 72-block edge, same or fresh handle, then append) and release-and-reuse (blocks freed through an open handle reused by another file); "
             "non-trivial = history contains at least one write and one read/seek/truncate; distinct = distinct script")
     nt = lambda L, r: any(l.startswith("write") for l in L) and any(l.split()[0] in ("read", "seek", "trunc") for l in L if l.split())
     return histcheck.explore(ctx, proof, {"C01"}, builders(ctx), rule,
